@@ -9,11 +9,12 @@ import extract
 import gen
 import impl
 
-RULES = [1, 3, 4, 9, 12, 13, 18, 19, 22, 23, 24, 25, 26, 31, 32, 35, 40, 41, 46, 47, 48]
+RULES = [1, 3, 4, 9, 10, 12, 13, 18, 19, 22, 23, 24, 25, 26, 31, 32, 35, 40, 41, 46, 47, 48]
 HEADING_RULES = {1, 3, 22, 23, 24, 25, 26, 41}
 STYLE3 = {"consistent": 0, "atx": 1, "atx_closed": 2, "setext": 3, "setext_with_atx": 4, "setext_with_atx_closed": 5}
 DEFAULT = {
     "md009": {"br_spaces": 2, "strict": False},
+    "md010": {"code_blocks": True},
     "md013": {"line_length": 80, "code_block_line_length": 80, "heading_line_length": 80, "code_blocks": True, "headings": True, "strict": False},
     "md012": {"maximum": 1},
     "md022": {"lines_above": 1, "lines_below": 1},
@@ -41,10 +42,10 @@ CONFIGS = {
     "short": _cfg(md013={"line_length": 20, "code_block_line_length": 10, "heading_line_length": 30}, md012={"maximum": 2}, md009={"br_spaces": 3},
                   md025={"level": 2}, md041={"level": 2}, md003={"style": "atx"}, md046={"style": "fenced"}, md048={"style": "tilde"},
                   md035={"style": "---"}, md026={"punctuation": ".?"}, md004={"style": "asterisk"}, md022={"lines_above": 0, "lines_below": 1}),
-    "strict": _cfg(md013={"line_length": 15, "code_blocks": False, "headings": False, "strict": True}, md009={"strict": True}, md012={"maximum": 0},
+    "strict": _cfg(md013={"line_length": 15, "code_blocks": False, "headings": False, "strict": True}, md009={"strict": True}, md010={"code_blocks": False}, md012={"maximum": 0},
                    md003={"style": "setext_with_atx"}, md046={"style": "indented"}, md048={"style": "backtick"}, md035={"style": "***"}, md004={"style": "sublist"},
                    md022={"lines_above": 2, "lines_below": 0}),
-    "code-low": _cfg(md013={"line_length": 30, "code_block_line_length": 12, "heading_line_length": 30}, md003={"style": "setext"}, md022={"lines_above": 1, "lines_below": 2}, md004={"style": "plus"}, md024={"siblings_only": True}),
+    "code-low": _cfg(md013={"line_length": 30, "code_block_line_length": 12, "heading_line_length": 30}, md010={"code_blocks": False}, md003={"style": "setext"}, md022={"lines_above": 1, "lines_below": 2}, md004={"style": "plus"}, md024={"siblings_only": True}),
     "head-low": _cfg(md013={"line_length": 30, "code_block_line_length": 30, "heading_line_length": 12, "code_blocks": True}, md003={"style": "atx_closed"}, md004={"style": "dash"}),
     "closed": _cfg(md013={"line_length": 25, "code_block_line_length": 40, "heading_line_length": 18}, md003={"style": "setext_with_atx_closed"}, md009={"br_spaces": 0}, md024={"siblings_only": True}),
 }
@@ -59,7 +60,7 @@ def spec_params(c):
          c["md013"]["line_length"], c["md013"]["code_block_line_length"], c["md013"]["heading_line_length"], int(c["md013"]["code_blocks"]), int(c["md013"]["headings"]), int(c["md013"]["strict"]),
          c["md012"]["maximum"], c["md022"]["lines_above"], c["md022"]["lines_below"], c["md025"]["level"], c["md041"]["level"],
          STYLE3[c["md003"]["style"]], {"consistent": 0, "fenced": 1, "indented": 2}[c["md046"]["style"]], {"consistent": 0, "backtick": 1, "tilde": 2}[c["md048"]["style"]],
-         {"consistent": 0, "asterisk": 1, "plus": 2, "dash": 3, "sublist": 4}[c["md004"]["style"]], int(c["md024"]["siblings_only"])]
+         {"consistent": 0, "asterisk": 1, "plus": 2, "dash": 3, "sublist": 4}[c["md004"]["style"]], int(c["md024"]["siblings_only"]), int(c["md010"]["code_blocks"])]
     hr = "" if c["md035"]["style"] == "consistent" else c["md035"]["style"]
     return " ".join(map(str, p)) + " " + extract.enc_str(c["md026"]["punctuation"]) + " " + extract.enc_str(hr)
 
@@ -115,9 +116,15 @@ def spaces(ctx):
     d3 = list(gen.d_line(W, 3, final_newline=(True,)))
     d4 = gen.sample(list(gen.d_line(W[:30], 4, final_newline=(True,))), 30000, 11)
     va = list(gen.d_line(gen.V_ALL, 3, final_newline=(True,)))
+    # tabs between letters (the only tabs of the fragment), in paragraphs, in indented and fenced code, in fences that the end of their
+    # container closes: the documents of MD010 and its code_blocks item
+    T = ["a\tb", "  a\tb", "- ```", "> ```", "> a\tb", "```", "~~~text", "    c\td", "text", "", "- x", "1. ```", "   p\tq", "# h\ti", "after", "> x"]
+    tabs = list(gen.d_line(T, 3, final_newline=(True,))) + gen.sample(list(gen.d_line(T, 4, final_newline=(True,))), 6000, 13)
+    tabs = [d for d in tabs if "\t" in d]
     if ctx.tier == "quick":
-        return {"W<=2": d2, "W=3": gen.sample(d3, 5000, ctx.seed), "W=4": gen.sample(d4, 1500, ctx.seed + 1), "V_all<=3": gen.sample(va, 2500, ctx.seed + 2)}
-    return {"W<=2": d2, "W=3": d3, "W=4": d4, "V_all<=3": va}
+        key = [d for d in tabs if d.count("\n") <= 3 and any(t in d for t in ("- ```", "> ```", "1. ```"))]      # a fence opened inside a container, a tab somewhere
+        return {"tabs<=4": list(gen.uniq(key + gen.sample(tabs, 800, ctx.seed + 3))), "W<=2": d2, "W=3": gen.sample(d3, 5000, ctx.seed), "W=4": gen.sample(d4, 1500, ctx.seed + 1), "V_all<=3": gen.sample(va, 2500, ctx.seed + 2)}
+    return {"tabs<=4": tabs, "W<=2": d2, "W=3": d3, "W=4": d4, "V_all<=3": va}
 
 
 def run(ctx):
@@ -139,8 +146,8 @@ def run(ctx):
     for i in good:
         n_other = len(cnames) - 1
         k = zlib.crc32(docs[i].encode("utf-8", "surrogatepass")) + ctx.seed
-        if origin[i] == "W<=2":
-            cs = cnames
+        if origin[i] in ("W<=2", "tabs<=4"):
+            cs = cnames if ctx.tier == "thorough" or origin[i] == "W<=2" else ["default", "strict", "code-low"]
         elif ctx.tier == "thorough":
             # every configuration for the short documents; the default and two others (fixed per document) for the rest
             cs = ["default", cnames[1 + k % n_other], cnames[1 + (k % n_other + 1 + (k // 7) % (n_other - 1)) % n_other]]
@@ -200,14 +207,14 @@ def run(ctx):
             ctx.seen([d, c])
     ctx.sample({"doc": docs[good[7]], "config": "default", "spec": {k: sorted(set(v[0])) for k, v in parse_answer(answers[[j for j, (i, c) in enumerate(jobs) if i == good[7]][0]])[1].items() if v[0]}})
     ctx.trusted += [
-        "Spec/RuleSpec.v is a specification written from newdocs/src/plugins/rule_md*.md (21 rules), over the block structure of the spec model CM; it is NOT a model of the rule implementations. Where the documentation leaves the reported line or a corner open, the line is listed as unspecified and never counted",
+        "Spec/RuleSpec.v is a specification written from newdocs/src/plugins/rule_md*.md (22 rules), over the block structure of the spec model CM; it is NOT a model of the rule implementations. Where the documentation leaves the reported line or a corner open, the line is listed as unspecified and never counted",
         "extraction + driver.ml; PyMarkdownApi.scan_string with the rules' configuration set through the API",
         "only documents inside the fragment F on which PyMarkdown's HTML equals the spec model's are judged (the property's own premise)",
     ]
     return ctx.finish(
         level="other",
-        rule="documents of <= 3 lines over a 44-template vocabulary of headings, long lines, trailing spaces, fences, breaks and containers, a fixed 30000-document sample of 4-line documents, 3-line documents over the general 60-template vocabulary; documents of <= 2 lines under all 6 configurations (default + 5 that move every documented configuration item), the others under the default and two more; quick = seed-selected subsets, each document under the default and one other configuration; non-trivial = a case in which some rule reports or must report; distinct by (document, configuration)",
-        assumptions=["inside F (no inline markup, no HTML, no tabs, no link definitions); rules MD010, MD042, MD045 are outside this specification", "md013.stern, md009.list_item_empty_lines, md003.allow-setext-update and front-matter titles are not varied"],
+        rule="documents of <= 3 lines over a 44-template vocabulary of headings, long lines, trailing spaces, fences, breaks and containers, a fixed 30000-document sample of 4-line documents, 3-line documents over the general 60-template vocabulary, documents of <= 4 lines over a 16-template vocabulary with tabs between letters (paragraphs, indented and fenced code, fences closed by the end of their container); documents of <= 2 lines under all 6 configurations (default + 5 that move every documented configuration item), the others under the default and two more; quick = seed-selected subsets, each document under the default and one other configuration; non-trivial = a case in which some rule reports or must report; distinct by (document, configuration)",
+        assumptions=["inside F (no inline markup, no HTML, tabs only between letters or digits, no link definitions); rules MD042, MD045 are outside this specification", "md013.stern, md009.list_item_empty_lines, md003.allow-setext-update and front-matter titles are not varied"],
         extra_cov={"exhaustive": ctx.tier == "thorough", "explanation": "theorems are about the specification (what its verdicts mean, for all documents); that each rule implements its specification is decided by comparing reported lines on enumerated documents and configurations"},
     )
 
